@@ -219,6 +219,19 @@ def check_case(ctx, case):
             continue
         what = "corpus_shuffle(" + ",".join(n for n, f in zip(("shift", "false_pos", "false_neg", "split", "cat"), flags) if f) + ")"
         got = check_valid_corpus(ctx, corpus, names, ref_units, allowed, what, include_ref=ref_name if include else None)
+        if include and m > 0 and sum(flags) <= 1:
+            # the returned corpus (with the reference annotator in it) is the caller's: perturbing it further must not
+            # reach the reference continuum the tool was built from
+            ctx.count("M-INCLUDED-REF-INDEPENDENT")
+            try:
+                cst.splits_shuffle(corpus)
+                cst.false_neg_shuffle(corpus)
+            except Exception:
+                pass
+            d_ref = monitors.diff_snap(before, monitors.snapshot_continuum(ref))
+            if d_ref:
+                ctx.fail("reference-changed-by-perturbing-a-corpus-that-includes-it", {"diff": d_ref[:3], "what": what}, monitor="M-CORPUS")
+                break
         if m == 0:
             ctx.count("M-MAGNITUDE-0")
             for a in names:
